@@ -4,6 +4,7 @@ import Driver.Bits
 import Driver.Packed
 import Driver.BitmapOps
 import Driver.DimOps
+import Driver.FloatOps
 /- vdriver: reads one operation per line, prints the model's canonical result line. -/
 open Driver
 
@@ -24,7 +25,9 @@ def runLine (line : String) : String :=
             | some r => r
             | none => match dimOp toks with
               | some r => r
-              | none => "bad-op"
+              | none => match floatOp toks with
+                | some r => r
+                | none => "bad-op"
 
 partial def loop (h : IO.FS.Stream) (out : IO.FS.Stream) : IO Unit := do
   let line ← h.getLine
